@@ -98,8 +98,41 @@ def oracle_release_completes(case, lines, runner=None):
                              f'would hang', 'signature': 'res-release-never-completes'}]
     return []
 
+def oracle_preempted_cause(case, lines, runner=None):
+    """restates "the evicted process receives Interrupt(Preempted(by, usage_since, resource)) and the slot goes to the preemptor":
+    the k-th Preempted cause a process receives belongs to the k-th eviction of one of its requests (evictions are read off the
+    public `users` around every call and kernel step, Runner.note_users); `resource` is that resource, `usage_since` the instant
+    at which the evicted request had entered `users`, and `by` the process that issued the request which took the slot - a
+    preempting, strictly better-ranked request that entered `users` in the same look (whoever happened to be running when the
+    queue was re-scanned is irrelevant).  Stands down when no such request is seen, and on split plans."""
+    if runner is None or case.mode != 'step':
+        return []
+    ev_of, got_of = {}, {}
+    for n in runner.notes:
+        if n[0] == 'evicted' and n[4] is not None:
+            ev_of.setdefault(id(n[4][0]), []).append(n)
+        elif n[0] == 'preempted':
+            got_of.setdefault(id(n[2]), []).append(n)
+    for pid, got in got_of.items():
+        for g, e in zip(got, ev_of.get(pid, [])):
+            _, name, me, by, since, resource, now = g
+            _, ri, t_ev, v, owner, takers, ctx, granted, users_before, added = e
+            where = (f'request {v} of process {name} was evicted from preemptive resource {ri} (capacity {case.res[ri][1]}, users {users_before}) at '
+                     f'{t_ev} during {"a kernel step" if ctx[0] == "step" else "the " + ctx[0] + " call for request " + str(ctx[1])}')
+            if resource is not runner.res[ri]:
+                return [{'what': f'{where}; the Preempted cause it received names another resource', 'signature': 'res-preempted-resource'}]
+            if granted is not None and since != granted:
+                return [{'what': f'{where}; it had been granted at {granted} but the Preempted cause it received says usage_since={since!r}',
+                         'signature': 'res-preempted-usage-since'}]
+            if takers and not any(by is o[0] for _, o in takers if o is not None):
+                who = runner.pnames.get(id(by), None) if by is not None else None
+                return [{'what': f'{where}; the slot went to request {", ".join(str(a) for a, _ in takers)} of process '
+                                 f'{", ".join(str(o[1]) for _, o in takers if o is not None)}, but the Preempted cause the victim received says '
+                                 f'by={"None" if by is None else "process " + str(who)}', 'signature': 'res-preempted-by'}]
+    return []
+
 def run(ctx):
-    res = kprops.run_kernel(ctx, 'C06', SPEC, 1500, 40000, oracles=[oracle_capacity_and_idle, oracle_grant_order, oracle_release, oracle_preemption, oracle_release_completes],
+    res = kprops.run_kernel(ctx, 'C06', SPEC, 1500, 40000, oracles=[oracle_capacity_and_idle, oracle_grant_order, oracle_release, oracle_preemption, oracle_release_completes, oracle_preempted_cause],
                              nontrivial=lambda c, lines: any('q[' in l and 'q[]' not in l for l in lines),
                              rule='seeded request/hold/release/cancel/with-exit histories of 2-8 processes on 1-2 resources of the three classes; non-trivial = distinct history in which some request had to queue')
     res['coverage'].update(kbridge.coverage('C06'))
